@@ -118,6 +118,11 @@ func c02Run(r *zsim.Run) {
 				case 3:
 					var m map[string]int
 					m["nil-map"] = 1 // runtime error
+				case 4:
+					// a panic is a panic whatever its value: recover() hands back nil for this one under the
+					// module's language version (go 1.19)
+					var none any
+					panic(none)
 				}
 				panic("handler-panic")
 			}
@@ -167,7 +172,7 @@ func c02Run(r *zsim.Run) {
 							if f.Intn(4) == 3 {
 								rq.steps = append(rq.steps, c02Step{kind: 6, code: zsim.Pick(f, 0, 1000, 99)})
 							} else {
-								rq.steps = append(rq.steps, c02Step{kind: 4, code: f.Intn(4)})
+								rq.steps = append(rq.steps, c02Step{kind: 4, code: f.Intn(5)})
 							}
 						}
 					}
@@ -255,9 +260,14 @@ func c02Judge(r *zsim.Run, rq *c02Req, rec *httptest.ResponseRecorder, panicked 
 		return true
 	}
 	deadline := rq.startAt + timeout // the timeout handler starts its clock right before the handler
-	_ = deadline
 	clientGone := cancelled >= 0 && cancelled <= t1
 	handlerDone := rq.finished && rq.finishAt <= t1
+	if rq.finished && rq.finishAt < deadline && !(cancelled >= 0 && cancelled <= rq.finishAt) && t1 > rq.finishAt+time.Millisecond {
+		// nothing in these runs takes time except the handler's own sleeps: a handler that is done before the
+		// deadline has its response (or the 500 for its panic) delivered then, not at the deadline
+		r.Failf("response-withheld", "request %d: the handler was done (panicked=%v) at %v, before the deadline %v, but the client was answered only at %v (%d)", rq.id, rq.panicked, rq.finishAt, deadline, t1, rec.Code)
+		return false
+	}
 	// expected content if the handler's output is delivered
 	status, hdr, out := http.StatusOK, "", ""
 	var mw []string
